@@ -2,6 +2,7 @@ package c17
 
 import (
 	"context"
+	"encoding/json"
 	"fmt"
 	"sync"
 	"testing"
@@ -210,10 +211,12 @@ func callerCtx(parent context.Context, deadlineMs, cancelMs int) (context.Contex
 	return ctx, cancel
 }
 
-func run1(t *testing.T, c Case1) Out1 {
+// run1 executes the case in a bubble and hands the observation to emit from inside the bubble (see
+// child.go: nothing after the bubble runs once the race detector has reported).
+func run1(t *testing.T, c Case1, emit func(Out1)) {
 	out := Out1{Subs: make([]SubOut, len(c.Subs))}
 	tr := &trace{}
-	res := vt.Run(t, watchdog, func(ctx context.Context) {
+	vt.Run(t, watchdog, func(ctx context.Context) {
 		tr.t0 = time.Now()
 		all, release := context.WithCancel(ctx)
 		defer release()
@@ -254,11 +257,12 @@ func run1(t *testing.T, c Case1) Out1 {
 			}(si)
 		}
 		wg.Wait()
+		out.TimedOut = ctx.Err() != nil
 		vt.Sleep(ctx, settle)
+		release()
+		out.Calls = tr.snapshot()
+		emit(out)
 	})
-	out.TimedOut = res.TimedOut
-	out.Calls = tr.snapshot()
-	return out
 }
 
 func allTrue(n int) []bool {
@@ -273,11 +277,52 @@ func check1(t *testing.T, c Case1) harness.Verdict {
 	var v harness.Verdict
 	races0 := raceErrors()
 	var out Out1
-	completed := guarded(func() { out = run1(t, c) })
+	completed := guarded(func() { run1(t, c, func(o Out1) { out = o }) })
 	if !inProcessRaces(&v, "race-getscts", races0, completed) {
 		v.NonTrivial = true
 		return v
 	}
+	judge1(&v, c, out)
+	return v
+}
+
+// check1iso is check1 with the case executed in a child process: used for the regression cases, which
+// are replayed before the harness starts persisting cases, so that a case that kills the process (a
+// panic in a goroutine of the code under test) is still attributed.
+func check1iso(t *testing.T, c Case1) harness.Verdict {
+	var v harness.Verdict
+	res, err := runChild(t, "getscts", c, nil)
+	if err != nil {
+		v.Failf("harness-child", "%v", err)
+		return v
+	}
+	judgeRaces(&v, res)
+	var out Out1
+	if res.Obs == nil {
+		return v
+	}
+	if err := json.Unmarshal(res.Obs, &out); err != nil {
+		v.Failf("harness-child", "cannot decode the child's observation: %v", err)
+		return v
+	}
+	judge1(&v, c, out)
+	return v
+}
+
+func init() {
+	childRunners["getscts"] = func(t *testing.T, raw, _ json.RawMessage, emit func(any)) error {
+		var c Case1
+		if err := json.Unmarshal(raw, &c); err != nil {
+			return err
+		}
+		run1(t, c, func(o Out1) { emit(o) })
+		return nil
+	}
+}
+
+func judge1(vp *harness.Verdict, c Case1, out Out1) {
+	v := *vp
+	defer func() { *vp = v }()
 	nd := policyNeed(c.Policy, c.Life)
 	n := len(c.List.Logs)
 	v.Class(fmt.Sprintf("policy:%s", map[int]string{polChrome: "chrome", polApple: "apple"}[c.Policy]), fmt.Sprintf("total:%d", nd.Total), fmt.Sprintf("subs:%d", len(c.Subs)))
@@ -307,8 +352,10 @@ func check1(t *testing.T, c Case1) harness.Verdict {
 		v.Class("has-failing-or-hanging-log")
 	}
 	v.NonTrivial = listOK && (anyBad || c.Policy == polChrome || len(c.Subs) > 1)
-	return v
 }
+
+// GetSCTsIsolated only serves regression replays (no generated cases of its own).
+var GetSCTsIsolated = harness.Define(harness.Opts{Name: "getscts-isolated", Rule: "regression cases of getscts, each executed in a child process", Quick: 0, Thorough: 0}, genCase1, check1iso)
 
 var GetSCTs = harness.Define(harness.Opts{Name: "getscts", Rule: ruleGetSCTs, Quick: 1500, Thorough: 15000, Crashy: true}, genCase1, check1)
 
